@@ -299,14 +299,16 @@ class DataPacketReceiver(Elaboratable):
                         m.d.comb += data_to_check.eq(Cat(previous_word[8:32], sink.data[0:8]))
 
                 # Check our CRC based on the word we've extracted, and strobe either ``packet_good``
-                # or ``packet_bad``, depending on its validity.
-                with m.If(data_to_check == crc32.crc):
-                    m.d.comb += self.packet_good.eq(1)
-                with m.Else():
-                    m.d.comb += self.packet_bad.eq(1)
+                # or ``packet_bad``, depending on its validity. The word carrying (the rest of) the
+                # CRC may be preceded by invalid words; wait for it.
+                with m.If(sink.valid):
+                    with m.If(data_to_check == crc32.crc):
+                        m.d.comb += self.packet_good.eq(1)
+                    with m.Else():
+                        m.d.comb += self.packet_bad.eq(1)
 
-                # Finally, wait for our next packet.
-                m.next = "WAIT_FOR_HPSTART"
+                    # Finally, wait for our next packet.
+                    m.next = "WAIT_FOR_HPSTART"
 
 
         return m
